@@ -17,7 +17,9 @@ Record obs := mkObs { ob_class : oclass; ob_gw : Z; ob_gu : Z; ob_idx : Z; ob_rg
 
 (* receipt extension (Model/TxPipeExt.v): inputs = CREATE address of (sender, nonce) and the bloom bit positions of each
    log of the receipt; observed = address reported by the receipt event, bits set in the receipt's bloom *)
-Record ext := mkExt { xi_ca : Z; xi_logs : list (list Z); xo_ca : option Z; xo_bloom : list Z }.
+Record ext := mkExt { xi_ca : Z; xi_logs : list (list Z);
+  xi_refund : option (Z * Z * Z);   (* calls to the driver's storage contract: bounds of the gas consumed before the refund and the refund counter, from the SSTORE cost table *)
+  xo_ca : option Z; xo_bloom : list Z }.
 
 Inductive citem := IEth (t : txd) (o : evm_out) (ob : obs) (x : ext) | ICosmos (g payer fee : Z) (inc : bool).
 Record block := mkBlock { b_pre : snap; b_maxgas : Z; b_items : list citem; b_post : snap; b_bloom : list Z }.
@@ -71,7 +73,12 @@ Definition ext_matches (t : txd) (r : txres) (x : ext) : bool :=
 (* the interpreter's own movements net to minus what it destroyed (hypothesis of C04_balances_sum_to_minus_burns),
    and the number of logs is the number of logs *)
 Definition oracle_consistent (o : evm_out) (x : ext) : bool :=
-  (sum_moves (e_moves o) =? - e_burn o) && (0 <=? e_burn o) && (Z.of_nat (length (xi_logs x)) =? e_logs o).
+  (sum_moves (e_moves o) =? - e_burn o) && (0 <=? e_burn o) && (Z.of_nat (length (xi_logs x)) =? e_logs o)
+  (* the refund rule of the model (TxPipe.gas_after_refund = refundGas with the London quotient) explains the observed gas used *)
+  && match xi_refund x with
+     | Some (lb, ub, counter) => (gas_after_refund lb counter <=? e_used o) && (e_used o <=? gas_after_refund ub counter)
+     | None => true
+     end.
 
 Fixpoint run_items (s : st) (l : list citem) : st * bool * list (option rext) :=
   match l with
